@@ -507,6 +507,8 @@ func runC14(c *Ctx) {
 	c11ArchiveLastWins(c)
 	c13ViewWrapsArgument(c)
 	c13PathPrefixByString(c)
+	c13NormalizeAlwaysCleans(c)
+	c14DiskValidateFirst(c)
 	c14SymlinkFullyResolved(c)
 	c13UntrustedNames(c)
 	ruleDelegateErr(c, "DELEGATE-ERR", stPkgs)
